@@ -93,6 +93,37 @@ def cases(seed, tier):
         c["script"][ci]["decisions"] = [{"do": "resume"} for _ in range(5)]
         c["script"][ci]["final"] = "resume"
         yield c
+    # a subscriber (registered after the recorder) fails on one of the descriptors - possibly one that 'configure'
+    # re-issues; the plan copes with the error at that message and goes on taking data
+    for j in range(3):
+        c = copy.deepcopy(case)
+        c["variant"] = f"subscriber-raises-on-descriptor-{j}"
+        c["callbacks"] = {"cbX": {"raise_at": {"descriptor": [rng.randrange(0, 6)]}}}
+        c["script"].insert(0, {"do": "subscribe", "cb": "cbX", "name": "all", "token": "x0"})
+        S2 = pg.S
+
+        def guard(nodes):
+            out = []
+            i = 0
+            while i < len(nodes):
+                n_ = nodes[i]
+                if n_.get("cmd") == "configure":
+                    out.append({"op": "try", "site": S2(), "body": [n_], "handlers": [{"exc": "Exception", "body": [msg(S2, "null")], "reraise": False}]})
+                    i += 1
+                elif n_.get("cmd") == "create":
+                    k = i
+                    while nodes[k].get("cmd") not in ("save", "drop"):
+                        k += 1
+                    out.append({"op": "try", "site": S2(), "body": nodes[i : k + 1], "handlers": [{"exc": "Exception", "body": [msg(S2, "null")], "reraise": False}]})
+                    i = k + 1
+                else:
+                    out.append(n_)
+                    i += 1
+            return out
+
+        main = next(s_ for s_ in c["script"] if s_.get("main"))
+        main["plan"] = guard(main["plan"])
+        yield c
 
 
 def check(res):
@@ -169,6 +200,10 @@ def check(res):
             if d is None:
                 continue
             dseq, ddoc = d
+            # whatever else happened: an event refers to the newest descriptor its stream had when it was emitted
+            newer = [s_ for s_, dd in descs.values() if dd["name"] == ddoc["name"] and dd.get("run_start") == ddoc.get("run_start") and dseq < s_ < e.seq]
+            if newer:
+                out.append(V("event-references-superseded-descriptor", f"event seq {doc['seq_num']} of {ddoc['name']!r} refers to a descriptor that had already been replaced by a newer one of that stream", stream=ddoc["name"]))
             for obj in streams.get(ddoc["name"], []):
                 if obj in configured_at and dseq < configured_at[obj]:
                     out.append(
